@@ -27,7 +27,7 @@ type Obligation struct {
 	CandModel                 string // model of the quantifier-free relaxation (candidate counterexample)
 	Static                    bool   // decided syntactically
 	ShortTimeout              bool
-	smtSliced, smtFull, smtQF string
+	smtSliced, smtFull, smtQF, smtLin string
 	Detail                    string
 }
 
@@ -76,6 +76,7 @@ type Engine struct {
 	callRes      map[string][]Value
 	callArgs     map[string][][]Value // results of contract calls by callee name (spec: res(Callee_Name, i))
 	dynType      map[string]types.Type
+	importAll    bool // refinement checks see every offer of the implementation
 	arrayMode    bool
 	usedNilChan  bool
 	loopDepth    int
